@@ -293,8 +293,9 @@ Proof.
   { intros j e. destruct (live_inst w j) as [it0|] eqn:Hl; [|discriminate]. destruct (i_calls it0); [discriminate|].
     intros [= <- <- _]. exact Hl. }
   unfold releasing. destruct b; try discriminate; try apply P.
-  destruct (live_inst w i0) as [it0|] eqn:Hl; [|discriminate]. destruct (i_calls it0); [discriminate|].
-  destruct (i_original it0); [discriminate|]. intros [= <- <- _]. exact Hl.
+  - destruct (live_inst w i0) as [it0|] eqn:Hl; [|discriminate]. destruct (i_calls it0); [discriminate|].
+    destruct (i_original it0); [discriminate|]. intros [= <- <- _]. exact Hl.
+  - destruct (Nat.eqb i0 j); [discriminate|]. destruct (live_inst w j); [apply P|discriminate].
 Qed.
 
 Lemma nth_opt_upd_same {X} (l : list X) : forall k (y z : X), nth_opt l k = Some y -> nth_opt (upd l k z) k = Some z.
@@ -369,5 +370,5 @@ Theorem dead_instance_inert w x b :
 Proof.
   intros H Hb. unfold step, step_core, releasing. cbn [ev_base ev_ctx].
   destruct b as [i m a|i|i|i|i|i|i|i|i m a|n| |i m a|i j|i m a|i m a]; try contradiction; try now rewrite (H i eq_refl).
-  rewrite (H i eq_refl). destruct (Nat.eqb i j); reflexivity.
+  rewrite (H i eq_refl). destruct (Nat.eqb i j); [reflexivity|]. destruct (live_inst w j); reflexivity.
 Qed.
